@@ -569,6 +569,30 @@ direct:
 			}
 		}
 	}
+	// the test was made inside a predicate of the module (usableAsMapKey(kv, keyT)): the Type() value it was made on
+	// does not exist in this function, but the fact names the same type by its key
+	for _, f := range lg.domFacts(blk) {
+		cond, truth := f.cond, f.truth
+		for {
+			u, ok := cond.(*ssa.UnOp)
+			if !ok || u.Op != token.NOT {
+				break
+			}
+			cond, truth = u.X, !truth
+		}
+		recv, args, ok := reflectTypeInvoke(cond, "AssignableTo")
+		if !ok || !truth || len(args) != 1 {
+			continue
+		}
+		rk, ak := lg.key(recv), lg.key(args[0])
+		for _, tk := range lg.valueTypeKeys(x) {
+			for _, target := range targets {
+				if tk == rk && target == ak {
+					return true, "dominating branch " + lg.condString(f)
+				}
+			}
+		}
+	}
 	// the value of a validating helper `v, err := check(T, x)` with err known to be nil here: every
 	// error-free return of the helper yields a value whose type is assignable to its parameter T
 	if ok, why := lg.viaValidatingHelper(x, blk, depth, func(lgG *ledger, g *ssa.Function, call *ssa.Call, res ssa.Value, at *ssa.BasicBlock) bool {
@@ -762,6 +786,25 @@ func (lg *ledger) comparable(k ssa.Value, blk *ssa.BasicBlock) oblPred {
 			for _, tv := range lg.valuesWithKey(tk) {
 				if ok, why := lg.prove(pred{kind: pComparable, v: tv}, blk); ok {
 					return true, why
+				}
+			}
+		}
+		// the test was made inside a predicate of the module: the fact names the type by its key
+		for _, f := range lg.domFacts(blk) {
+			cond, truth := f.cond, f.truth
+			for {
+				u, ok := cond.(*ssa.UnOp)
+				if !ok || u.Op != token.NOT {
+					break
+				}
+				cond, truth = u.X, !truth
+			}
+			if recv, _, ok := reflectTypeInvoke(cond, "Comparable"); ok && truth {
+				rk := lg.key(recv)
+				for _, tk := range lg.valueTypeKeys(k) {
+					if tk == rk {
+						return true, "dominating branch " + lg.condString(f)
+					}
 				}
 			}
 		}
